@@ -202,4 +202,28 @@ example :
     ((run todayMem [.step 1, .step 1, .step 1] w1).ths[1]?.bind Thread.outcome) = some .notFound := by
   decide
 
+/-! ### an honoured request = every one of its threads honoured -/
+
+/-- **The link between the request level and the thread count**: whatever request of whatever modelled endpoint is answered
+    200 (token endpoint with a code, s2s envelope, authorization response, request-object fetch, landing page, DPoP
+    validation), EVERY thread it stands for ends `ok` when its threads run one after the other under today's configuration —
+    so each honoured request is a success on each of its secrets in the sense the all-schedules theorems count
+    (`successes … ≤ 1`).  All request contents, stores, instants, back-ends.  (An s2s envelope has one thread per
+    presentation: `s2sLoop_ok_threads`; an envelope without presentations is refused before the loop by the real handler.) -/
+theorem honoured_request_means_every_thread_honoured (strict incl : Bool) (pk : Pkce) (now : Nat) (st : Store) (f : Form)
+    (hok : (handleForm ⟨incl, now, todayTTL⟩ pk st f).1 = .ok) :
+    ∀ o ∈ threadsOutcomes (today strict incl) now st (formThreads ⟨incl, now, todayTTL⟩ pk st f), o = some .ok :=
+  handleForm_ok_threads (today strict incl) (today_gad_locked strict incl) (today_mark_locked strict incl) (fun _ => rfl) pk now st f hok
+
+/-- non-vacuity: an honoured s2s envelope of two presentations has two honoured mark threads; an honoured code request one -/
+example :
+    let c : Sq := ⟨true, 0, todayTTL⟩
+    let pk : Pkce := ⟨"S256", fun _ => true⟩
+    let st : Store := [(codeKey "c1", ⟨"clientA", 300⟩)]
+    let f1 : Form := .token { grantType := "vp_token-bearer", assertion := some ["x1", "x2"], submission := true, scope := true, clientId := some "a" }
+    let f2 : Form := .token { grantType := "authorization_code", code := some "c1", codeVerifier := some "v", clientId := some "clientA" }
+    (handleForm c pk st f1).1 = .ok ∧ threadsOutcomes (today false true) 0 st (formThreads c pk st f1) = [some .ok, some .ok] ∧
+    (handleForm c pk st f2).1 = .ok ∧ threadsOutcomes (today false true) 0 st (formThreads c pk st f2) = [some .ok] := by
+  decide
+
 end Nuts.C05.Props
